@@ -120,6 +120,11 @@ func (j *JSV) validate(v any, schemaNode any, path string, errs *[]string, depth
 			add("string expected, got %s", jsonType(v))
 			return
 		}
+		if format == "date" {
+			if _, err := time.Parse("2006-01-02", sv); err != nil {
+				add("not a full-date: %q", sv)
+			}
+		}
 		if format == "date-time" {
 			if _, err := time.Parse(time.RFC3339Nano, sv); err != nil {
 				add("not an RFC 3339 date-time: %q", sv)
